@@ -1570,7 +1570,8 @@ REGISTRY = {
         explanation="C08_score_node / C08_score (score = score recomputed from the assignment, every schedule), C08_quality (numerator = sum "
                     "of penalties), C08_max (theoretical maximum >= score).  QualityInfo of the implementation is recomputed in Coq "
                     "(binary32 quotient compared bit for bit).  The rating of ignored pre-assigned participants: C08_external_rank / _first_rank / "
-                    "_external_list on the reader specification, and ext_quality_okb on the implementation's output.",
+                    "_external_list / _external_instructors (only instructors WITH choices are counted: defect D18, fixed by 2b07851) on the reader "
+                    "specification, and ext_quality_okb (recomputed declaratively from the raw export) on the implementation's output.",
         trusted_base=["modelled, not verified: src/caobab/solution_score.rs, src/caobab.rs; printing of f32 values (Display) not modelled"],
         assumptions=["valid instances with at least one participant with choices (else the quality is 0/0)"]),
     "C04": dict(mk(spec_c04, streams_tree(0), RULE_TREE), allow_axioms=(),
